@@ -141,17 +141,20 @@ def applyOutcome (db : Db) (k : Key) (now : Int) (o : Fetch.Outcome) : Db × Boo
     | _ => (db, false)
   (Cache.finishFetch db1 k, ok)
 
-/-- a task whose last fetch has completed: it republishes iff it fetched something — the diagnosis of the text
-    its document has NOW (re-read from the document cache; nothing if the document was closed meanwhile) -/
+/-- the open documents a completed task re-checks: its own document (whatever it contains now) and every other
+    open document of the same registry that uses a package the task fetched -/
+def affected (s : Srv) (t : Task) (uri : Text) : List (Text × List PkgInfo) :=
+  s.docs.filter fun d =>
+    d.1 == uri || ((Detect.detect d.1).map String.toList == some t.reg && d.2.any fun p => t.fetched.contains p.name)
+
+/-- a task whose last fetch has completed: iff it fetched something, it republishes — for every affected open
+    document — the diagnosis of the text that document has NOW -/
 def finishTask (s : Srv) (i : Nat) (t : Task) : Srv × List Msg :=
   let s2 := { s with tasks := s.tasks.eraseIdx i }
   match t.uri with
   | some uri =>
     if t.fetched.isEmpty then (s2, [])
-    else
-      match s2.docs.find? (·.1 == uri) with
-      | some (_, pkgs) => (s2, [.pub uri (diagnose s2 (String.ofList t.reg) pkgs)])
-      | none => (s2, [])
+    else (s2, (affected s2 t uri).map fun d => .pub d.1 (diagnose s2 (String.ofList t.reg) d.2))
   | none => (s2, [])
 
 /-- task `t` holds the claim of (reg, name) and waits for the registry -/
